@@ -140,7 +140,7 @@ func init() {
 			prefixFilter(c.rule("R15", ruleR15), "R15", "LINKED: LinkedHashMap table ↔ order list", 5, "R15a:maps/linkedhashmap", "R15b:maps/linkedhashmap", "R15c:maps/linkedhashmap", "R15w:maps/linkedhashmap", "R15d:maps/linkedhashmap"),
 			c.rule("R16", ruleR16), prefixFilter(c.rule("R24", ruleR24), "R24", "HASH: HashMap is the Go map", 5, "R24:maps/hashmap"), rolesFor(c, "C01"),
 			prefixFilter(c.rule("R21b", ruleR21b), "R21b", "B-tree: rebalance is keyed by the node's own key", 1, "R21b:btree.rebalance-key"),
-			prefixFilter(c.rule("R13", ruleR13), "R13", "ORDER: comparator-driven descents use one orientation and the full verdict", 10, "R13a:"), c.rule("R32", ruleR32), c.rule("R34", ruleR34), c.rule("R28", ruleR28), c.rule("R36", ruleR36), c.rule("R37", ruleR37))
+			prefixFilter(c.rule("R13", ruleR13), "R13", "ORDER: comparator-driven descents use one orientation and the full verdict", 10, "R13a:"), c.rule("R32", ruleR32), c.rule("R34", ruleR34), c.rule("R28", ruleR28), c.rule("R44", ruleR44), c.rule("R36", ruleR36), c.rule("R37", ruleR37))
 	}}
 	properties["C02"] = propDef{run: func(c *Ctx) *PropertyRun {
 		return pr("other", "Decided: (R13a) all 10 comparator-driven descents relate probe and stored key with one orientation (less → left/low, greater → right/high, equal → found); (R13b) keys are never compared with Go operators in comparator-ordered packages; (R20) Min/Max/Floor/Ceiling/Values/Keys delegate to the matching tree operation and (R38 unpack) return the found node's own key and value with true, the zero triple with false; (R10) Floor↔Ceiling, Left↔Right, Min↔Max, iterator Next↔Prev, rotations and fix-up arms are mirror images under μ. (R34) the three rotation primitives (red-black rotateLeft/rotateRight with replaceNode expanded, the AVL tree's direction-parameterised rotate in both directions) are replayed over a symbolic heap on every path: the in-order sequence of the rotated subtree is the same before and after and it has exactly one new root. Not decided: that splits/merges/borrows of the B-tree and the successor/predecessor swaps of Remove preserve the in-order sequence; sortedness of Keys() as such; B-tree per-node binary-search bounds; behaviour under a comparator that is not a strict weak order."+notBehaviour,
@@ -153,6 +153,7 @@ func init() {
 			prefixFilter(c.rule("R12", ruleR12), "R12", "SIZE: linked-list counters", 6, "R12b:lists/", "R12c:lists/", "R12e:lists/"),
 			prefixFilter(c.rule("R23", ruleR23), "R23", "LISTS: Contains, Sort, withinRange of the three lists", 9, "R23c:lists/", "R23s:lists/", "R23w:lists/"),
 			prefixFilter(c.rule("R2b", ruleR2b), "R2b", "OWNED: a list keeps no slice a caller handed in (an element at index i changes only through the list)", 12, "R2b:lists/"),
+			prefixFilter(c.rule("R44", ruleR44), "R44", "NILDEREF: no path reads or writes through the nil constant (a pointer variable no path assigns)", 1, "R44:nilconst"),
 			filter(c.rule("R1", ruleR1), "R1", "PURE: the reading operations of the three lists (Get, IndexOf, Contains, Values, Size, …) write nothing — what Get(i) reports is position i of the sequence as the mutators left it, not a memo of an earlier read", 40, func(o Obligation) bool {
 				return strings.HasPrefix(o.Key, "R1:lists/") && strings.Contains(o.Key, ".(*List).")
 			}),
@@ -197,7 +198,8 @@ func init() {
 			prefixFilter(c.rule("R11", ruleR11), "R11", "PARENTLINK: the links tree cursors climb", 26, "R11:"),
 			filter(c.rule("R1", ruleR1), "R1", "PURE: iterator methods write only the iterator", 150, func(o Obligation) bool { return strings.Contains(o.Key, "Iterator).") }),
 			prefixFilter(c.rule("R22", ruleR22), "R22", "HEAP: Values() is filled from the heap's own iterator, position by position (so Value() at position i is Values()[i])", 1, "R22:trees/binaryheap.Heap.Values"),
-			prefixFilter(c.rule("R41", ruleR41), "R41", "HEAP: the iterator orders a level with the heap's own comparator", 1, "R41:trees/binaryheap.Iterator.level-order"))
+			prefixFilter(c.rule("R41", ruleR41), "R41", "HEAP: the iterator orders a level with the heap's own comparator", 1, "R41:trees/binaryheap.Iterator.level-order"),
+			prefixFilter(c.rule("R36", ruleR36), "R36", "EXTREME: B-tree descents — the iterator's and the helpers it calls — hop through the first / last child of the node they are on (each node has its own number of children)", 3, "R36:hop:"))
 	}}
 	properties["C09"] = propDef{run: func(c *Ctx) *PropertyRun {
 		return pr("other", "Decided in full as a who-may-call / pairing property: (R15a) the order list is mutated only by Append under 'key not in table', Remove(IndexOf(key)) under 'key in table' together with delete(table,key), and Clear together with clearing the table — so an existing key is never moved and a re-inserted key goes last; (R15b) table and list change on exactly the same paths; (R15c) every enumerator (Keys, Values, iterator, Each…, String, ToJSON) walks the list and never ranges over the Go map; (R15w) the two fields are assigned only in constructors/Clear; of the order list itself (a doubly linked list): (R33) its index walks keep pointer and counter in step and land on the requested index from either end, (R25) next/prev are stored in pairs. Not decided: the rest of doublylinkedlist.Append/Remove/IndexOf (C03's remainder). Inherited (substrate): the doubly linked list that keeps the order — next/prev pairing, index walks, size counter, index guards."+notBehaviour,
@@ -214,6 +216,7 @@ func init() {
 		return pr("other", "Decided: (R16) for both BidiMaps, on every path of Put the pair held by the key is evicted from the inverse map by the looked-up value and the pair holding the value is evicted from the forward map by the looked-up key, exactly when the respective lookup found something, and both evictions precede both insertions (key→value forward, value→key inverse); Remove deletes both directions in one found-guarded region, the inverse one keyed by the looked-up value, and does nothing for an absent key; Clear clears both; Get/Size/Keys read the forward map, GetKey/Values the inverse map; (R8) their loaders insert through Put; of the red-black tree that carries both directions of TreeBidiMap: (R11) every child-link store has its parent-link twin and (R10) the rotations are mirror images (a stale Parent makes Remove and enumeration disagree with Get/GetKey). Not decided: the rest of the underlying map/tree correctness (C01's remainder). Inherited (substrate): the red-black tree that carries both directions of TreeBidiMap — parent links, mirror arms, rotations' in-order preservation, fix-up wiring, size counter, comparator discipline."+notBehaviour,
 			withSubstrates(c, []*RuleResult{
 				c.rule("R16", ruleR16),
+				prefixFilter(c.rule("R17", ruleR17), "R17", "ENUM: TreeBidiMap's Map/Select build their result through Put (the outputs of a non-injective function must evict)", 2, "R17:maps/treebidimap.(*Map).Map", "R17:maps/treebidimap.(*Map).Select"),
 				prefixFilter(c.rule("R11", ruleR11), "R11", "PARENTLINK: the red-black tree under both directions of TreeBidiMap", 8, "R11:trees/redblacktree"),
 				prefixFilter(c.rule("R10", ruleR10), "R10", "MIRROR: red-black rotations under TreeBidiMap", 1, "R10:trees/redblacktree.Tree.rotate"),
 				prefixFilter(c.rule("R8", ruleR8), "R8", "LOADER: BidiMap FromJSON inserts through Put", 10, "R8:maps/hashbidimap", "R8a:maps/hashbidimap", "R8b:maps/hashbidimap", "R8c:maps/hashbidimap", "R8d:maps/hashbidimap", "R8:maps/treebidimap", "R8a:maps/treebidimap", "R8b:maps/treebidimap", "R8c:maps/treebidimap", "R8d:maps/treebidimap"),
@@ -284,7 +287,7 @@ func init() {
 			inherited(c, []*RuleResult{
 				c.rule("R3", ruleR3), c.rule("R4", ruleR4), c.rule("R5", ruleR5), c.rule("R6", ruleR6), c.rule("R7", ruleR7),
 				prefixFilter(c.rule("R8", ruleR8), "R8", "LOADER: the decoder never targets live state (R8a)", 14, "R8a:"), prefixFilter(c.rule("R21b", ruleR21b), "R21b", "AVL direction arguments / child indices are 0/1, ±1", 1, "R21b:avl.directions"),
-				prefixFilter(c.rule("R19", ruleR19), "R19", "RING: start/end stay below capacity in every method (wrap), and the ring slice is indexed only through them", 2, "R19b-wrap:", "R19b-index:"), c.rule("R31", ruleR31), controlFor(c, "R3", "R4", "R6", "R7", "R8"),
+				prefixFilter(c.rule("R19", ruleR19), "R19", "RING: start/end stay below capacity in every method (wrap), and the ring slice is indexed only through them", 2, "R19b-wrap:", "R19b-index:"), c.rule("R31", ruleR31), c.rule("R44", ruleR44), prefixFilter(c.rule("R38", ruleR38), "R38", "SWAP: the linked lists' Swap picks both elements (equal indices cannot send the walk off the end)", 3, "R38:swap:"), controlFor(c, "R3", "R4", "R6", "R7", "R8"),
 			}, "C01", "C03", "C04", "C05", "C06", "C09", "C10", "C08")...)
 	}}
 	properties["C18"] = propDef{run: func(c *Ctx) *PropertyRun {
